@@ -6,37 +6,7 @@ From Coq Require Import ZifyBool.
 (* 2. Fuel: i strictly increases                                       *)
 (* ================================================================== *)
 
-Section Generic.
-Context {St : Type} (add : str -> str -> St -> St).
-
-(* fuel is consulted before the loop test, hence 0 < fuel *)
-Lemma loop_progress fuel qs i st :
-  length qs < fuel + i -> 0 < fuel -> qsl_loop add fuel qs i st <> None.
-Proof.
-  revert i st. induction fuel as [|f IH]; intros i st H H0; [lia|].
-  cbn [qsl_loop].
-  destruct (Nat.ltb_spec i (length qs)) as [Hi|Hi]; [|discriminate].
-  destruct (for_else is_eq_or_amp (skipn i qs) 0 0 None) as [idx c].
-  assert (Hf : 0 < f) by lia.
-  destruct (slice qs i (i + idx)).
-  - apply IH; lia.
-  - destruct (opt_is c 38).
-    + apply IH; lia.
-    + destruct (for_else is_amp (skipn (i + idx + 1) qs) 0 0 None) as [idx2 c2].
-      apply IH; lia.
-Qed.
-
-Lemma run_fuel_suffices qs st : qsl_run add qs st <> None.
-Proof. unfold qsl_run. apply loop_progress; lia. Qed.
-
-Lemma loop_done f qs i st : length qs <= i -> qsl_loop add (S f) qs i st = Some st.
-Proof.
-  intros H. cbn [qsl_loop]. destruct (Nat.ltb_spec i (length qs)); [lia | reflexivity].
-Qed.
-
-(* ================================================================== *)
-(* 3. The scanner on a well-formed encoding                            *)
-(* ================================================================== *)
+(* ---- list/scan facts that do not depend on the mode of parse_qsl ---- *)
 
 Lemma for_else_stop stop a x r n idx c :
   Forall (fun y => stop y = false) a -> stop x = true ->
@@ -88,6 +58,38 @@ Lemma slice_tail {A} (pre a : list A) n :
 Proof.
   intros H. unfold slice. rewrite skipn_pre. apply firstn_all2. lia.
 Qed.
+
+Section Generic.
+Context {St : Type} (add : str -> str -> St -> St).
+
+(* fuel is consulted before the loop test, hence 0 < fuel *)
+Lemma loop_progress fuel qs i st :
+  length qs < fuel + i -> 0 < fuel -> qsl_loop add fuel qs i st <> None.
+Proof.
+  revert i st. induction fuel as [|f IH]; intros i st H H0; [lia|].
+  cbn [qsl_loop].
+  destruct (Nat.ltb_spec i (length qs)) as [Hi|Hi]; [|discriminate].
+  destruct (for_else is_eq_or_amp (skipn i qs) 0 0 None) as [idx c].
+  assert (Hf : 0 < f) by lia.
+  destruct (slice qs i (i + idx)).
+  - apply IH; lia.
+  - destruct (opt_is c 38).
+    + apply IH; lia.
+    + destruct (for_else is_amp (skipn (i + idx + 1) qs) 0 0 None) as [idx2 c2].
+      apply IH; lia.
+Qed.
+
+Lemma run_fuel_suffices qs st : qsl_run add qs st <> None.
+Proof. unfold qsl_run. apply loop_progress; lia. Qed.
+
+Lemma loop_done f qs i st : length qs <= i -> qsl_loop add (S f) qs i st = Some st.
+Proof.
+  intros H. cbn [qsl_loop]. destruct (Nat.ltb_spec i (length qs)); [lia | reflexivity].
+Qed.
+
+(* ================================================================== *)
+(* 3. The scanner on a well-formed encoding                            *)
+(* ================================================================== *)
 
 (* the encoder, abstractly: what the scanner needs to know about quote / quote_plus *)
 Context (q : str -> str).
